@@ -530,6 +530,86 @@ static void run_histories(void) {
     }
 }
 
+/* ---------------------------------------------------------------- histories across matrices sharing one buffer
+ * A buffer is reused for a second matrix with a different shape (same header width class, so the same dimension
+ * byte): every cell of the second matrix must still be independent - nothing may be remembered about the first. */
+static void run_matrix_sequences(void) {
+    if (!vh_section_begin("sequences")) {
+        return;
+    }
+    static const int SH[][2] = {{2, 3}, {3, 3}, {4, 10}, {4, 12}, {6, 9}, {3, 7}, {7, 3}, {1, 40}, {40, 1}, {5, 5}};
+    const int NS = (int)(sizeof SH / sizeof *SH);
+    static const int KINDS[3] = {K_BIT, K_U1, K_DOUBLE};
+    for (int a = 0; a < NS; a++) {
+        for (int b = 0; b < NS; b++) {
+            for (int ki = 0; ki < 3; ki++) {
+                if (!vh_case()) {
+                    continue;
+                }
+                if (a == b) {
+                    continue;
+                }
+                int kind = KINDS[ki], ew = kind_width(kind);
+                uint8_t *m = vh_gb_get_lo(0, 2048, 0x00); /* the same address for both matrices */
+                uint8_t ref[2048];
+                for (int which = 0; which < 2; which++) {
+                    int R = which ? SH[b][0] : SH[a][0], C = which ? SH[b][1] : SH[a][1];
+                    size_t hl = 2, cells = (size_t)R * (size_t)C;
+                    size_t total = hl + (kind == K_BIT ? (cells + 7) / 8 : cells * (size_t)ew);
+                    memset(m, 0, 2048);
+                    int dim = (int)varintDimensionPairEncode(m, (size_t)R, (size_t)C);
+                    memcpy(ref, m, 2048);
+                    snprintf(desc, sizeof desc, "%dx%d %s matrix written at the address that held a %dx%d matrix", R, C, KN[kind], SH[a][0], SH[a][1]);
+                    for (int r = 0; r < R; r++) {
+                        for (int c = 0; c < C; c++) {
+                            size_t idx = (size_t)r * (size_t)C + (size_t)c;
+                            int okread = 1;
+                            if (SB_ENTER()) {
+                                if (kind == K_BIT) {
+                                    if ((r + c) & 1) {
+                                        int prev = varintDimensionPairEntryToggleBit(m, (size_t)r, (size_t)c, (varintDimensionPair)dim);
+                                        okread = prev == 0;
+                                    } else {
+                                        varintDimensionPairEntrySetBit(m, (size_t)r, (size_t)c, true, (varintDimensionPair)dim);
+                                    }
+                                    ref[hl + idx / 8] |= (uint8_t)(1u << (idx % 8));
+                                    okread &= varintDimensionPairEntryGetBit(m, (size_t)r, (size_t)c, (varintDimensionPair)dim) == 1;
+                                } else if (kind == K_U1) {
+                                    uint8_t v = (uint8_t)(0x80 | idx);
+                                    varintDimensionPairEntrySetUnsigned(m, (size_t)r, (size_t)c, v, VARINT_WIDTH_8B, (varintDimensionPair)dim);
+                                    ref[hl + idx] = v;
+                                    okread = varintDimensionPairEntryGetUnsigned(m, (size_t)r, (size_t)c, VARINT_WIDTH_8B, (varintDimensionPair)dim) == v;
+                                } else {
+                                    double d = 1.5 + (double)idx;
+                                    varintDimensionPairEntrySetDouble(m, (size_t)r, (size_t)c, d, (varintDimensionPair)dim);
+                                    memcpy(ref + hl + idx * 8, &d, 8);
+                                    okread = varintDimensionPairEntryGetDouble(m, (size_t)r, (size_t)c, (varintDimensionPair)dim) == d;
+                                }
+                                SB_LEAVE();
+                            } else {
+                                vh_fail("dimension.sequence", vh_fault_name(), "untagged", "%s: cell (%d,%d): %s", desc, r, c, vh_fault_msg);
+                                continue;
+                            }
+                            vh_count("calls", 2);
+                            if (which && (!okread || memcmp(m, ref, 2048))) {
+                                size_t at = 0;
+                                while (at < 2048 && m[at] == ref[at]) {
+                                    at++;
+                                }
+                                vh_fail(kind == K_BIT ? "dimension.EntrySetBit" : kind == K_U1 ? "dimension.EntrySetUnsigned" : "dimension.EntrySetDouble", "depends_on_previous_matrix", "untagged",
+                                        "%s: after writing cell (%d,%d) byte %zu is %02x, model %02x (read-back ok: %d; matrix is %zu bytes)", desc, r, c, at, at < 2048 ? m[at] : 0, at < 2048 ? ref[at] : 0, okread, total);
+                                memcpy(m, ref, 2048);
+                            }
+                        }
+                    }
+                }
+                vh_count("cases", 1);
+            }
+        }
+    }
+    vh_class("sequences/two-matrices-one-buffer", "%d shapes x %d shapes x {bit, u8, double}", NS, NS);
+}
+
 int main(int argc, char **argv) {
     vh_init(argc, argv);
     vh_sandbox_init();
@@ -538,6 +618,7 @@ int main(int argc, char **argv) {
     run_headers();
     run_cells();
     run_histories();
+    run_matrix_sequences();
     vh_write_out();
     return 0;
 }
